@@ -104,6 +104,33 @@ link_write_short!(c14_h14b_short_write_2, 2);
 link_write_short!(c14_h14b_short_write_4, 4);
 link_write_short!(c14_h14b_short_write_8, 8);
 
+/// C14 H14d: zero-then-progress: one write call (index ZERO_AT) accepts nothing,
+/// the others a solver-chosen non-empty prefix: Ok => every byte delivered.
+macro_rules! link_write_zero {
+    ($name:ident, $zero_at:expr) => {
+        #[kani::proof]
+        #[kani::unwind(6)]
+        #[kani::stub(std::io::Error::is_interrupted, never_interrupted)]
+        fn $name() {
+            let data: [u8; 3] = kani::any();
+            let mut v = Vec::with_capacity(3);
+            v.push(data[0]); v.push(data[1]); v.push(data[2]);
+            let mut l = Link::new(Stream::Raw(ZeroPrefixWriter::<3>::new($zero_at)));
+            let r = l.write(&v);
+            let w = l.verif_raw();
+            if r.is_ok() {
+                assert!(w.out_len == 3, "Ok => all bytes delivered (also after a zero-length write)");
+                assert!(w.out[0] == data[0] && w.out[1] == data[1] && w.out[2] == data[2], "in order");
+            }
+            kani::cover!(w.zero_seen, "a zero-length write happened");
+            std::mem::forget(r);
+            std::mem::forget(v);
+        }
+    };
+}
+link_write_zero!(c14_h14d_zero_at_call_0, 0);
+link_write_zero!(c14_h14d_zero_at_call_1, 1);
+
 /// C14 H14c: a transport error at write call number FAIL_AT (after any
 /// solver-chosen pattern of partial writes) is reported, never swallowed; if
 /// the message completes before that call, Ok means everything was delivered.
